@@ -42,5 +42,11 @@ CLAIMED = {
   'note': 'Order of eContents/eAllContents is not claimed (the code iterates a set of references). The metamodel-level views are checked by the oracle on the real code here; their Lean model is with C12.',
   'technique': 'Lean 4 proof (views characterised through the ownership invariant) + differential correspondence + independent oracle',
  },
+ 'C05': {
+  'text': 'Lean theorems C05_step / C05_mirror / C05_raise_silent over the slot model (what each mutator of valuecontainer.py does to its slot and which notifications it emits, in order): for every history of mutator calls on a single-valued, list-like or set-like slot, an observer applying the emitted notifications ends with exactly the contents (equal / same multiset / same set); raising calls emit nothing. Tie (a): exhaustive slot-level correspondence — every small slot state x every mutator x every index on real EObject features (attribute and reference), emitted (kind, old, new) sequence and contents vs the model; tie (b): history-level oracle with an observer on every object and resource mirroring every feature, implicit opposite-end changes included.',
+  'design_ref': 'DESIGN.md section 4 C05',
+  'note': 'The theorems are per slot; that every change of a slot (also of the opposite end) goes through one of the modelled mutators is checked by the history-level oracle, not proved (it found two bypasses, both repaired). Order across different (notifier, feature) pairs and no-change notifications are not judged. set.discard() is outside the property\'s operation list.',
+  'technique': 'Lean 4 proof (one-step mirror lemma per mutator, induction over histories) + exhaustive small-scope differential correspondence of emitted notifications + independent observer-side oracle',
+ },
 }
 NOT_APPLICABLE = {}
